@@ -4,7 +4,9 @@ Model of `tacd` (the TLS-ALPN-01 responder):
 * `tacd/src/main.rs:55-56`   the domain goes through `to_idna`
 * `acme_common/src/crypto/openssl_certificate.rs:159-212` `gen_certificate`: SAN = the domain,
   the `name=value` split of the acmeIdentifier extension text
-* `tacd/src/openssl_server.rs:14-27` accept loop, one thread per connection, `accept(stream).unwrap()`
+* `tacd/src/openssl_server.rs:14-29` accept loop, one thread per connection; the handshake result is
+  logged and dropped (`if let Err(e) = acceptor.accept(stream) { debug!(…) }`) since commit 633d75a,
+  before it was `let _ = acceptor.accept(stream).unwrap();` (`OnFailure.panics`)
 * `tacd/src/openssl_server.rs:31-34` ALPN callback `select_next_proto(b"\x0aacme-tls/1", client)`
   → OpenSSL `SSL_select_next_proto` (transliterated from openssl 3.4.1 `ssl/ssl_lib.c:3538-3591`, the
   form in every release since the CVE-2024-5535 fix) and, before the callback is reached, the
@@ -221,9 +223,17 @@ thread (`thread::spawn` per accepted stream) and blocks nobody. -/
 def run (f : OnFailure) (s : PanicStrategy) (history : List Conn) : State :=
   history.foldl (step f s) .alive
 
-/-- What the instance on the unchanged tree is. -/
-def shippedOnFailure : OnFailure := .panics
-def shippedPanicStrategy : PanicStrategy := .abort
+/-- The instance before commit 633d75a (DESIGN §1 observation h). -/
+def unrepairedOnFailure : OnFailure := .panics
+def unrepairedPanicStrategy : PanicStrategy := .abort
+
+/-- The instance described by the facts extracted from the working tree (`Gen/Profile.lean`):
+does the connection thread unwrap the `accept` result, how many other panic sites does the accept
+macro contain, does `[profile.release]` say `panic = 'abort'`. -/
+def instanceOf (acceptResultUnwrapped : Bool) (otherPanicSites : Nat) (releasePanicAbort : Bool) :
+    OnFailure × PanicStrategy :=
+  (if acceptResultUnwrapped || decide (otherPanicSites > 0) then .panics else .ignored,
+   if releasePanicAbort then .abort else .unwind)
 
 /-- The behaviours of the C17 catalogue and the events they produce. -/
 inductive Behaviour
@@ -265,16 +275,18 @@ structure LoopState where
   deriving Repr, DecidableEq
 
 /-- One turn of `for stream in listener.incoming()`. `Incoming::next` never returns `None`, so
-the `for` has no other exit than a panic of the main thread. -/
-def acceptStep (st : LoopState) (e : AcceptEv) : LoopState :=
+the `for` has no other exit than a panic of the main thread — unless the loop were changed to
+leave on `Err` (`exitsOnErr`, extracted from the tree as `Gen.acceptLoopExitsOnErr`; `false` for
+`if let Ok(stream) = stream`). -/
+def acceptStep (exitsOnErr : Bool) (st : LoopState) (e : AcceptEv) : LoopState :=
   if st.running then
     match e with
     | .ok => { st with spawned := st.spawned + 1 }
-    | .err => st
+    | .err => if exitsOnErr then { st with running := false } else st
     | .okSpawnFails => { st with running := false }
   else st
 
-def acceptRun (evs : List AcceptEv) : LoopState :=
-  evs.foldl acceptStep { running := true, spawned := 0 }
+def acceptRun (exitsOnErr : Bool) (evs : List AcceptEv) : LoopState :=
+  evs.foldl (acceptStep exitsOnErr) { running := true, spawned := 0 }
 
 end AcmedVerif.Tacd
